@@ -292,6 +292,8 @@ fn mk_spec(spec: &str) -> Value {
         "O" => Value::make_one_shot_iterator(0..n() as i64),
         "R" => Environment::new().compile_expression("range(n)").unwrap().eval(context! { n => n() }).unwrap(),
         "CS" => Value::from_object(CustomSeq(n())),
+        // a Rust array (`impl Object for [T; N]`), N fixed to 4
+        "A" => Value::from_object([0i64, 1, 2, 3]),
         "CI" => Value::from_object(CustomIter(n())),
         "M" => {
             let mut m: BTreeMap<Value, Value> = BTreeMap::new();
@@ -659,7 +661,7 @@ fn fb(x: f64) -> String { format!("f:{}", x.to_bits()) }
 fn value_specs() -> Vec<String> {
     let s5 = hex("aé€𝄞b".as_bytes());
     let long: String = (0..30).map(long_chr).collect();
-    let mut v: Vec<String> = ["U", "Z", "T", "i:5", "sn:", "sm:61", "b:000102fe", "b:", "L:0", "L:1", "L:4", "D:4", "P:0", "P:1", "P:2",
+    let mut v: Vec<String> = ["U", "Z", "T", "i:5", "sn:", "sm:61", "b:000102fe", "b:", "L:0", "L:1", "L:4", "D:4", "A:4", "P:0", "P:1", "P:2",
         "P:4", "E:4", "E:0", "X:4", "X:0", "O:4", "R:4", "CS:4", "CI:4", "M:i=1,i=-1,i=0,sm=6b,sm=31,T", "M:", "MS:6b,31", "Q"]
         .iter().map(|s| s.to_string()).collect();
     v.push(fb(1.0));
